@@ -2,13 +2,16 @@
    A conforming image has at most MaxImageHeight rows and MaxImagePixels pixels; /Rows lowers the limit. *)
 From Coq Require Import ZArith Bool List.
 From GoPdf.Base Require Import Bytes Res.
-From GoPdf.Gen Require Import Gen_C06ccitt.
+From GoPdf.Gen Require Import Gen_C06ccitt Gen_C06ccitt2d.
 From GoPdf.C06 Require Import Machine FilterParams CCITT CCITT2D.
 Import ListNotations.
 Open Scope Z_scope.
 
-Definition ccitt_geo_max_rows (cols : Z) : Z :=
-  Z.max 1 (Z.min MaxImageHeight (Z.quot MaxImagePixels (Z.max cols 1))).
+(* ccitt_geo_max_rows : the expression assigned to maxRows in toParams, translated from the Go source
+   (Gen_C06ccitt2d.v); the two limits it mentions are the translated constants of internal/limits. *)
+Lemma ccitt_geo_max_rows_limits cols :
+  ccitt_geo_max_rows cols = Z.max 1 (Z.min MaxImageHeight (Z.quot MaxImagePixels (Z.max cols 1))).
+Proof. reflexivity. Qed.
 
 Definition ccitt_max_rows (columns rows : Z) : Z :=
   let cols := if columns =? 0 then 1728 else columns in
